@@ -410,6 +410,10 @@ def arg_positions(lit):
         # the destination does not exist yet: the value is still evaluated against the Assign's target
         ('Assign-value-missing-path', (Assign(T['newbox']['deep'], lit, missing=dict), T['newbox']['deep']), lambda r: r),
         ('Assign-value-missing-path-str', (Assign('nb.l1.l2', lit, missing=dict), 'nb.l1.l2'), lambda r: r),
+        # the destination is a variable of the scope: the value is still evaluated against the target
+        ('Assign-value-to-scope-variable', (Assign(S['v'], lit), S['v']), lambda r: r),
+        ('Assign-value-below-a-scope-variable', (S(holder={}), Assign(S['holder']['slot'], lit), S['holder']['slot']), lambda r: r),
+        ('Assign-value-below-a-scope-variable-missing', (S(holder={}), Assign(S['holder']['l1']['l2'], lit, missing=dict), S['holder']['l1']['l2']), lambda r: r),
     ]
 
 
